@@ -609,6 +609,17 @@ func (c *fileCtx) renderFunc(it *Item) {
 	c.pf("\tid_ := %s.New()\n\t_ = id_\n", tr)
 	c.pf("\tv_ := %s\n", c.mk(it.Out, "id_", false))
 	c.pf("\t%s.Prov(%q, v_%s)\n", tr, it.Key, args)
+	if it.Mutate {
+		for i, t := range it.Params {
+			if t.K == "ptr" && t.Elem.K == "named" && t.Elem.Decl.Under != nil && t.Elem.Decl.Under.K == "struct" {
+				for _, f := range t.Elem.Decl.Under.Fields {
+					if f.Name == "Scratch_" {
+						c.pf("\t%s.Scratch_ += 7\n", pn[i])
+					}
+				}
+			}
+		}
+	}
 	switch {
 	case it.Cleanup && it.Err:
 		c.pf("\treturn v_, %s.Cleanup(%q), nil\n", tr, it.Key)
